@@ -346,3 +346,70 @@ Section OnEnc.
     destruct (0 <? Y); rewrite ?isub_spec, ?iadd_spec by auto using ienc_canon; rewrite !ienc_val; reflexivity.
   Qed.
 End OnEnc.
+
+(** * Part 4: statements for arbitrary canonical BigInt operands *)
+Ltac to_enc Hx Hy :=
+  rewrite <- (ienc_of_icanon _ Hx), <- (ienc_of_icanon _ Hy), !ienc_val.
+
+Section General.
+  Variable p : div_params.
+  Hypothesis Hok : div_ok p = true.
+  Variables x y : bigint.
+  Hypothesis Hx : icanon x.
+  Hypothesis Hy : icanon y.
+
+  Theorem idiv_rem_spec : idiv_rem p x y = omap ienc2 (spec_idivrem (ival x) (ival y)).
+  Proof. to_enc Hx Hy. apply idiv_rem_enc; auto. Qed.
+  Theorem idiv_spec : idiv p x y = omap ienc (spec_idiv (ival x) (ival y)).
+  Proof. to_enc Hx Hy. apply idiv_enc; auto. Qed.
+  Theorem irem_spec : irem p x y = omap ienc (spec_irem (ival x) (ival y)).
+  Proof. to_enc Hx Hy. apply irem_enc; auto. Qed.
+  Theorem idiv_floor_spec : idiv_floor p x y = omap ienc (spec_idiv_floor (ival x) (ival y)).
+  Proof. to_enc Hx Hy. apply idiv_floor_enc; auto. Qed.
+  Theorem imod_floor_spec : imod_floor p x y = omap ienc (spec_imod_floor (ival x) (ival y)).
+  Proof. to_enc Hx Hy. apply imod_floor_enc; auto. Qed.
+  Theorem idiv_mod_floor_spec : idiv_mod_floor p x y = omap ienc2 (spec_idiv_mod_floor (ival x) (ival y)).
+  Proof. to_enc Hx Hy. apply idiv_mod_floor_enc; auto. Qed.
+  Theorem idiv_ceil_spec : idiv_ceil p x y = omap ienc (spec_idiv_ceil (ival x) (ival y)).
+  Proof. to_enc Hx Hy. apply idiv_ceil_enc; auto. Qed.
+  Theorem idiv_euclid_spec : idiv_euclid p x y = omap ienc (spec_div_euclid (ival x) (ival y)).
+  Proof. to_enc Hx Hy. apply idiv_euclid_enc; auto. Qed.
+  Theorem irem_euclid_spec : irem_euclid p x y = omap ienc (spec_rem_euclid (ival x) (ival y)).
+  Proof. to_enc Hx Hy. apply irem_euclid_enc; auto. Qed.
+  Theorem idiv_rem_euclid_spec : idiv_rem_euclid p x y = omap ienc2 (spec_div_rem_euclid (ival x) (ival y)).
+  Proof. to_enc Hx Hy. apply idiv_rem_euclid_enc; auto. Qed.
+
+  Lemma iis_zero_ival : iis_zero y = (ival y =? 0).
+  Proof. rewrite <- (ienc_of_icanon _ Hy), ienc_val. apply iis_zero_ienc. Qed.
+
+  Theorem ichecked_div_spec :
+    ichecked_div p x y = omap (option_map ienc) (spec_ichecked_div (ival x) (ival y)).
+  Proof.
+    unfold ichecked_div. rewrite (dk_g5 p (div_ok_inv p Hok)), iis_zero_ival.
+    apply guarded_spec. apply idiv_spec.
+  Qed.
+  Theorem ichecked_div_inherent_spec :
+    ichecked_div_inherent p x y = omap (option_map ienc) (spec_ichecked_div (ival x) (ival y)).
+  Proof.
+    unfold ichecked_div_inherent. rewrite (dk_g9 p (div_ok_inv p Hok)), iis_zero_ival.
+    apply guarded_spec. apply idiv_spec.
+  Qed.
+  Theorem ichecked_div_euclid_spec :
+    ichecked_div_euclid p x y = omap (option_map ienc) (spec_ichecked_div_euclid (ival x) (ival y)).
+  Proof.
+    unfold ichecked_div_euclid. rewrite (dk_g6 p (div_ok_inv p Hok)), iis_zero_ival.
+    apply guarded_spec. apply idiv_euclid_spec.
+  Qed.
+  Theorem ichecked_rem_euclid_spec :
+    ichecked_rem_euclid p x y = omap (option_map ienc) (spec_ichecked_rem_euclid (ival x) (ival y)).
+  Proof.
+    unfold ichecked_rem_euclid. rewrite (dk_g7 p (div_ok_inv p Hok)), iis_zero_ival.
+    apply guarded_spec. apply irem_euclid_spec.
+  Qed.
+  Theorem ichecked_div_rem_euclid_spec :
+    ichecked_div_rem_euclid p x y = omap (option_map ienc2) (spec_ichecked_div_rem_euclid (ival x) (ival y)).
+  Proof.
+    unfold ichecked_div_rem_euclid. rewrite (dk_g8 p (div_ok_inv p Hok)), iis_zero_ival.
+    apply guarded_spec. apply idiv_rem_euclid_spec.
+  Qed.
+End General.
